@@ -122,6 +122,11 @@ func (fx *Fx) execRangeMap(st *State, x *ast.RangeStmt, m *types.Map, label stri
 	gsort := fmt.Sprintf("(Array %s Int)", ks)
 	fx.havoc(st, ws)
 	st.ghost[gname] = Val{S: gsort, X: fx.d.freshConst(gname, gsort)}
+	for _, gn := range sortedKeys(st.ghost) {
+		if strings.HasPrefix(gn, gname+"_") {
+			st.ghost[gn] = Val{S: gsort, X: fx.d.freshConst(gn, gsort)}
+		}
+	}
 	visited := fx.d.freshConst(vname, vsort)
 	st.ghost[vname] = Val{S: vsort, X: visited}
 	fx.assumeInvariants(st, ls)
@@ -209,6 +214,12 @@ func (fx *Fx) execSend(st *State, x *ast.SendStmt) []Outcome {
 		v = fx.coerce(st, v, ct.Elem())
 	}
 	fx.checkChanInvariantExpr(st, x.Chan, v)
+	if se, ok := ast.Unparen(x.Chan).(*ast.SelectorExpr); ok && fx.v.fieldNeverClosed(se.Sel.Name) {
+		// no close(x.<field>) anywhere in the packages: a send on this channel cannot hit a closed channel
+		fx.note("channel field " + se.Sel.Name + " is never closed (syntactic scan of the packages): sends on it carry no closed-channel obligation")
+		cell := fx.chanCell(st, c.X)
+		st.assume(not(app("ch_closed", cell)))
+	}
 	fx.chanSend(st, c, v, exprText(x.Chan))
 	fx.traceChanOp(st, "chansend", c)
 	return normal(st)
@@ -248,7 +259,7 @@ func (fx *Fx) chanRecv2(st *State, x *ast.UnaryExpr) []Val {
 	st.assume(implies(not(ok), app("ch_closed", cell)))
 	fx.noteCtxDone(st, c)
 	fx.assumeChanInvariantExpr(st, x.X, v, ok)
-	fx.traceChanOp(st, "chanrecv", c)
+	fx.traceChanOpVal(st, "chanrecv", c, v, ok)
 	return []Val{v, {T: types.Typ[types.Bool], S: SBool, X: ok}}
 }
 
@@ -260,6 +271,28 @@ func (fx *Fx) havocChans(st *State) {
 }
 
 func (fx *Fx) execGo(st *State, x *ast.GoStmt) []Outcome {
+	// the spawned function runs under its own contract: its precondition must hold at the go statement
+	if key, fd, recvExpr := fx.calleeOf(x.Call); key != "" && fd != nil {
+		if spec := fx.v.contracts.Funcs[key]; spec != nil {
+			var recv *Val
+			if recvExpr != nil {
+				rp := fx.evalPlace(st, recvExpr, false)
+				rv := fx.receiverValue(st, rp, fd.obj.Type().(*types.Signature), exprText(recvExpr), false)
+				recv = &rv
+			}
+			var args []Val
+			for _, a := range x.Call.Args {
+				args = append(args, fx.eval(st, a, false))
+			}
+			bind := fx.specBindings(fd, spec, recv, args)
+			for _, r := range spec.Requires {
+				g := fx.specEval(st, fd.pkg, bind, nil, r.Expr)
+				fx.oblige(st, "pre", fmt.Sprintf("go %s:%s", key, r.Label), g, r.Text)
+			}
+			fx.note("go statements are not executed: the spawned function is verified as its own entry point under its precondition, which is proved at the go statement")
+			return normal(st)
+		}
+	}
 	for _, a := range x.Call.Args {
 		fx.eval(st, a, false)
 	}
@@ -302,6 +335,21 @@ func selIdx(x *ast.SelectStmt, cl ast.Stmt) int {
 		}
 	}
 	return -1
+}
+
+func (fx *Fx) traceChanOpVal(st *State, op string, c, v Val, ok string) {
+	if fx.rootSpec == nil || !fx.rootSpec.TraceChans {
+		return
+	}
+	fx.v.colSorts["arg_"+op+"_0"] = SRef
+	args := []Val{c}
+	if v.S == SRef {
+		fx.v.colSorts["arg_"+op+"_1"] = SRef
+		// a receive from a closed, drained channel yields the zero value
+		args = append(args, Val{S: SRef, X: ite(ok, v.X, "nil")})
+		st.assume(implies(not(ok), app("=", v.X, "nil")))
+	}
+	fx.abstractCallQuiet(st, c.X, op, args)
 }
 
 // traceChanOp records channel operations of functions that ask for it (spec flag traced-chans) in the ghost trace.
